@@ -6,6 +6,7 @@ import CaddyModel.C15.Spec
 import CaddyModel.C15.Caddyfile
 import CaddyModel.C15.Pool
 import CaddyModel.C15.Proxy
+import CaddyModel.C15.Recorder
 
 set_option linter.unusedSimpArgs false
 set_option linter.unusedVariables false
@@ -2072,4 +2073,157 @@ theorem script_of_okRev : ∀ (tr : List (CallEv α)), okRev tr none = true →
     · simp [callsOf, e2]
 
 end
+end CaddyModel.C15
+
+/-! ## the buffering recorder behind the encode handler -/
+namespace CaddyModel.C15
+
+theorem writtenBytes_eq (ops : List (Op Bytes)) : writtenBytes ops = (ops.map opBytes).flatten := rfl
+
+theorem writtenBytes_snoc (ops : List (Op Bytes)) (op : Op Bytes) :
+    writtenBytes (ops ++ [op]) = writtenBytes ops ++ opBytes op := by
+  simp [writtenBytes_eq]
+
+theorem written_flatten (cfg : Cfg Bytes) (hsz : cfg.size = List.length) : ∀ (ops : List (Op Bytes)),
+    (written cfg ops).flatten = writtenBytes ops
+  | [] => rfl
+  | op :: ops => by
+    have ih := written_flatten cfg hsz ops
+    rw [writtenBytes_eq] at ih ⊢
+    simp only [written, List.flatMap_cons, List.flatten_append, List.map_cons, List.flatten_cons] at ih ⊢
+    rw [ih]
+    congr 1
+    cases op with
+    | write p =>
+      simp only [opPayloads, hsz, opBytes]
+      by_cases hp : p = []
+      · simp [hp]
+      · simp [hp]
+    | readFrom cs => exact flatten_nonEmpty cfg hsz cs
+    | writeHeader s => rfl
+    | flush => rfl
+    | hset k v => rfl
+    | hadd k v => rfl
+    | hdel k => rfl
+
+/-- what has been passed on plus what is still buffered = what the handler has written so far -/
+def recAcc (s : RecSt Bytes) : Bytes := writtenBytes s.out.reverse ++ s.buf.flatten
+
+theorem recAcc_writeHeader (sb : Nat → Bool) (s : RecSt Bytes) (status : Nat) :
+    recAcc (recWriteHeader sb s status) = recAcc s := by
+  unfold recWriteHeader recAcc
+  split
+  · rfl
+  · simp only []
+    split
+    · simp [List.reverse_cons, writtenBytes_snoc, opBytes]
+    · rfl
+
+/-- something is buffered only after the final header decided for buffering -/
+def RecInv (s : RecSt Bytes) : Prop := s.buf = [] ∨ (s.wrote = true ∧ s.stream = false)
+
+theorem recInv_writeHeader (sb : Nat → Bool) (s : RecSt Bytes) (status : Nat) (h : RecInv s) :
+    RecInv (recWriteHeader sb s status) := by
+  unfold recWriteHeader
+  by_cases hw : s.wrote = true
+  · simp [hw]; exact h
+  · rcases h with h | ⟨h, _⟩
+    · simp only [hw]; exact Or.inl h
+    · exact absurd h hw
+
+theorem wrote_after_200 (sb : Nat → Bool) (s : RecSt Bytes) : (recWriteHeader sb s 200).wrote = true := by
+  unfold recWriteHeader
+  by_cases hw : s.wrote = true
+  · simp [hw]
+  · simp [hw]
+
+theorem recAcc_step (sb : Nat → Bool) (s : RecSt Bytes) (op : Op Bytes) (hi : RecInv s) :
+    recAcc (recStep sb s op) = recAcc s ++ opBytes op ∧ RecInv (recStep sb s op) := by
+  cases op with
+  | writeHeader status => exact ⟨by simp [recStep, recAcc_writeHeader, opBytes], recInv_writeHeader sb s status hi⟩
+  | write p =>
+    simp only [recStep, opBytes]
+    rw [← recAcc_writeHeader sb s 200]
+    have hi1 := recInv_writeHeader sb s 200 hi
+    have hw1 := wrote_after_200 sb s
+    generalize recWriteHeader sb s 200 = s1 at *
+    by_cases h : s1.stream = true
+    · have hb : s1.buf = [] := by
+        rcases hi1 with hb | ⟨_, hs⟩
+        · exact hb
+        · rw [h] at hs; cases hs
+      exact ⟨by simp [h, recAcc, List.reverse_cons, writtenBytes_snoc, opBytes, hb], by simp [h]; exact Or.inl hb⟩
+    · have h' : s1.stream = false := by simpa using h
+      exact ⟨by simp [h, recAcc, List.append_assoc], by simp [h]; exact Or.inr ⟨hw1, rfl⟩⟩
+  | readFrom cs =>
+    simp only [recStep, opBytes]
+    rw [← recAcc_writeHeader sb s 200]
+    have hi1 := recInv_writeHeader sb s 200 hi
+    have hw1 := wrote_after_200 sb s
+    generalize recWriteHeader sb s 200 = s1 at *
+    by_cases h : s1.stream = true
+    · have hb : s1.buf = [] := by
+        rcases hi1 with hb | ⟨_, hs⟩
+        · exact hb
+        · rw [h] at hs; cases hs
+      exact ⟨by simp [h, recAcc, List.reverse_cons, writtenBytes_snoc, opBytes, hb], by simp [h]; exact Or.inl hb⟩
+    · have h' : s1.stream = false := by simpa using h
+      exact ⟨by simp [h, recAcc, List.append_assoc], by simp [h]; exact Or.inr ⟨hw1, rfl⟩⟩
+  | flush =>
+    simp only [recStep, opBytes, List.append_nil]
+    split
+    · exact ⟨by simp [recAcc, List.reverse_cons, writtenBytes_snoc, opBytes], hi⟩
+    · exact ⟨rfl, hi⟩
+  | hset k v => exact ⟨by simp [recStep, recAcc, List.reverse_cons, writtenBytes_snoc, opBytes], hi⟩
+  | hadd k v => exact ⟨by simp [recStep, recAcc, List.reverse_cons, writtenBytes_snoc, opBytes], hi⟩
+  | hdel k => exact ⟨by simp [recStep, recAcc, List.reverse_cons, writtenBytes_snoc, opBytes], hi⟩
+
+theorem recAcc_foldl (sb : Nat → Bool) : ∀ (ops : List (Op Bytes)) (s : RecSt Bytes), RecInv s →
+    recAcc (ops.foldl (recStep sb) s) = recAcc s ++ writtenBytes ops ∧ RecInv (ops.foldl (recStep sb) s)
+  | [], s, hi => ⟨by simp [writtenBytes_eq], hi⟩
+  | op :: ops, s, hi => by
+    obtain ⟨a, b⟩ := recAcc_step sb s op hi
+    obtain ⟨c, d⟩ := recAcc_foldl sb ops _ b
+    rw [List.foldl_cons]
+    exact ⟨by rw [c, a]; simp [writtenBytes_eq, List.append_assoc], d⟩
+
+theorem stream_buf_nil {s : RecSt Bytes} (hi : RecInv s) (hs : s.stream = true) : s.buf = [] := by
+  rcases hi with h | ⟨_, h⟩
+  · exact h
+  · rw [hs] at h; cases h
+
+theorem recFinish_bytes (sb : Nat → Bool) (s : RecSt Bytes) (hi : RecInv s) :
+    writtenBytes (recFinish sb List.flatten List.isEmpty s).out.reverse = recAcc s := by
+  unfold recFinish
+  by_cases hs : s.stream = true
+  · simp [hs, recAcc, stream_buf_nil hi hs]
+  · simp only [hs]
+    have e := recAcc_writeHeader sb s 200
+    have hi200 := recInv_writeHeader sb s 200 hi
+    generalize hs1 : (if (s.status == 0) = true then recWriteHeader sb s 200 else s) = s1
+    have e1 : recAcc s1 = recAcc s := by
+      rw [← hs1]; split
+      · exact e
+      · rfl
+    have hi1 : RecInv s1 := by
+      rw [← hs1]; split
+      · exact hi200
+      · exact hi
+    by_cases h1 : s1.stream = true
+    · simp only [h1, if_true]
+      rw [← e1]; simp [recAcc, stream_buf_nil hi1 h1]
+    · simp only [h1]
+      rw [← e1]
+      by_cases hb : (List.flatten s1.buf).isEmpty = true
+      · have : s1.buf.flatten = [] := by simpa using hb
+        simp [hb, recAcc, List.reverse_cons, writtenBytes_snoc, opBytes, this]
+      · simp [hb, recAcc, List.reverse_cons, List.reverse_append, writtenBytes_snoc, opBytes, writtenBytes_eq]
+
+theorem recorderOps_bytes (sb : Nat → Bool) (ops : List (Op Bytes)) :
+    writtenBytes (recorderOps sb List.flatten List.isEmpty ops) = writtenBytes ops := by
+  unfold recorderOps
+  obtain ⟨a, b⟩ := recAcc_foldl sb ops RecSt.init (Or.inl rfl)
+  rw [recFinish_bytes sb _ b, a]
+  simp [recAcc, RecSt.init, writtenBytes_eq]
+
 end CaddyModel.C15
